@@ -46,6 +46,17 @@ func NewSyncedEnforcer(params ...interface{}) (*SyncedEnforcer, error) {
 	return e, nil
 }
 
+// copyRules returns a copy of the rule list. The unsynchronized getters hand out the model's own
+// slice, which later removals and updates rewrite in place; a caller of the synchronized
+// enforcer reads the result after the lock is released, so it must get a list of its own.
+// (The rules themselves are never modified in place, so the outer slice is enough.)
+func copyRules(rules [][]string, err error) ([][]string, error) {
+	if rules == nil {
+		return nil, err
+	}
+	return append(make([][]string, 0, len(rules)), rules...), err
+}
+
 // GetLock return the private RWMutex lock.
 func (e *SyncedEnforcer) GetLock() *sync.RWMutex {
 	return &e.m
@@ -271,7 +282,7 @@ func (e *SyncedEnforcer) GetAllNamedRoles(ptype string) ([]string, error) {
 func (e *SyncedEnforcer) GetPolicy() ([][]string, error) {
 	e.m.RLock()
 	defer e.m.RUnlock()
-	return e.Enforcer.GetPolicy()
+	return copyRules(e.Enforcer.GetPolicy())
 }
 
 // GetFilteredPolicy gets all the authorization rules in the policy, field filters can be specified.
@@ -285,7 +296,7 @@ func (e *SyncedEnforcer) GetFilteredPolicy(fieldIndex int, fieldValues ...string
 func (e *SyncedEnforcer) GetNamedPolicy(ptype string) ([][]string, error) {
 	e.m.RLock()
 	defer e.m.RUnlock()
-	return e.Enforcer.GetNamedPolicy(ptype)
+	return copyRules(e.Enforcer.GetNamedPolicy(ptype))
 }
 
 // GetFilteredNamedPolicy gets all the authorization rules in the named policy, field filters can be specified.
@@ -299,7 +310,7 @@ func (e *SyncedEnforcer) GetFilteredNamedPolicy(ptype string, fieldIndex int, fi
 func (e *SyncedEnforcer) GetGroupingPolicy() ([][]string, error) {
 	e.m.RLock()
 	defer e.m.RUnlock()
-	return e.Enforcer.GetGroupingPolicy()
+	return copyRules(e.Enforcer.GetGroupingPolicy())
 }
 
 // GetFilteredGroupingPolicy gets all the role inheritance rules in the policy, field filters can be specified.
@@ -313,7 +324,7 @@ func (e *SyncedEnforcer) GetFilteredGroupingPolicy(fieldIndex int, fieldValues .
 func (e *SyncedEnforcer) GetNamedGroupingPolicy(ptype string) ([][]string, error) {
 	e.m.RLock()
 	defer e.m.RUnlock()
-	return e.Enforcer.GetNamedGroupingPolicy(ptype)
+	return copyRules(e.Enforcer.GetNamedGroupingPolicy(ptype))
 }
 
 // GetFilteredNamedGroupingPolicy gets all the role inheritance rules in the policy, field filters can be specified.
